@@ -80,6 +80,7 @@ COMPONENT_SPECS = [
     {"kind": "spy", "outcome": "allow", "delay": 5},
     {"kind": "spy", "outcome": "deny", "response": "53 Scripted deny\r\n"},
     {"kind": "spy", "outcome": "deny", "delay": 5, "response": "44 Scripted slow deny\r\n"},
+    {"kind": "spy", "outcome": "deny", "response": None},
     {"kind": "spy", "outcome": "raise"},
     {"kind": "spy", "outcome": "raise", "delay": 5},
     {"kind": "spy", "outcome": "raise", "exc": "CancelledError"},
@@ -136,7 +137,8 @@ def expected_of(spec, has_cert, fp_presented, req_path="/"):
         return "allow", None
     if k == "spy":
         if spec["outcome"] == "deny":
-            return "deny", spec["response"].encode()
+            # a refusal without a message must still be answered with some refusal (4x/5x/6x)
+            return "deny", spec["response"].encode() if spec["response"] else b""
         return spec["outcome"], None
     if k == "acl":
         return ("deny", b"53 ") if spec["deny"] else ("allow", None)
@@ -353,7 +355,7 @@ def run_conn(ctx, chain_specs, req, label, valid, schedule, has_cert, handler_ki
         elif not client_gone:
             a = analyse_server_stream(stream)
             if exp == "deny":
-                if not stream.startswith(exp_resp) or not a["ok"]:
+                if not stream.startswith(exp_resp) or not a["ok"] or 20 <= (a["status"] or 0) <= 29:
                     ctx.violation(f"wrong-rejection-bytes{sfx}:component={comp_kind}", f"client did not receive the first rejecting component's response (expected prefix {exp_resp!r})", wit)
             else:
                 if not a["ok"] or 20 <= (a["status"] or 0) <= 29:
